@@ -140,7 +140,7 @@ def run(ck):
             gen = re.findall(r"^def\s+(\w+)", open(GENERATED).read(), re.M)
             agree = common.strip_lean_comments(open(AGREE).read())
             missing = [d for d in gen if not re.search(r"\bGen\.%s\b" % re.escape(d), agree)]
-            ck.oblige("every generated definition (%d) is the subject of an agreement theorem" % len(gen), not missing, "not covered: " + ", ".join(missing))
+            ck.oblige("every generated definition (%d) is the subject of an agreement theorem" % len(gen), not missing, ("not covered: " + ", ".join(missing)) if missing else "")
             # 4. audit
             save = ck.prop
             ck.prop = save + "-purefns"
